@@ -7,6 +7,7 @@ import (
 	"math/rand"
 	"net"
 	"sort"
+	"runtime"
 	"sync"
 	"sync/atomic"
 	"time"
@@ -86,6 +87,17 @@ func rmCase(k int) {
 					nextID++
 					id := nextID
 					sizes[id] = n
+					// the requester may already be gone when it asks (a peer that disconnected before the torrent loop
+					// noticed), or leave while the manager is answering: the answer and the booking must stay one event
+					early := cr.Intn(5) == 0
+					if early {
+						if cr.Intn(2) == 0 {
+							close(cancelC)
+						} else {
+							go func() { runtime.Gosched(); close(cancelC) }()
+						}
+						run.Count("rm_requests_with_requester_gone", 1)
+					}
 					call := clock.Add(1)
 					acq := m.Request(fmt.Sprintf("key%d", cr.Intn(2)), id, n, notifyC, cancelC)
 					if acq {
@@ -95,6 +107,9 @@ func rmCase(k int) {
 					rec(c, rmIn{"request", n}, rmOut{Acquired: acq}, call, ret)
 					if acq {
 						mine = append(mine, n)
+						continue
+					}
+					if early {
 						continue
 					}
 					// queued: wait a little for a grant, otherwise cancel
